@@ -894,8 +894,12 @@ def main(argv) -> int:
 
     with concurrent.futures.ProcessPoolExecutor(max_workers=chk.pick(3, 6)) as procs:
         eq_deadline = chk.t0 + budget * 0.8
+        heavy_deadline = chk.t0 + budget * 0.35  # v3: ~1 min per job on an idle machine
         futures = [
-            procs.submit(unpickled_equivalence, list(argv), *job, eq_deadline if i >= 12 else None)
+            procs.submit(
+                unpickled_equivalence, list(argv), *job,
+                None if i < 12 else (heavy_deadline if "v3" in job[0] else eq_deadline),
+            )
             for i, job in enumerate(eq_jobs)
         ]
         with concurrent.futures.ThreadPoolExecutor(max_workers=8) as threads:
